@@ -125,3 +125,115 @@ def bounded_nonempty(rules, start="S", depth=4):
                     gen.add(key)
                     changed = True
     return (start, ()) in gen
+
+
+# ---------------------------------------------------------------------------------------------------------------------
+# Untrusted reference for the intersection clause: Aho's marking with antichain pruning (validated against the proved Coq
+# model on every plain is_empty case of the run), applied to the product of the rules with an epsilon-free automaton.
+class OracleBudget(Exception):
+    pass
+
+
+def aho_is_empty(rules, start="S", budget=300000):
+    nts = {start}
+    for r in rules:
+        nts |= {"end": {r[1]}, "prod": set(r[1:3]), "cons": set(r[2:4]), "dup": set(r[1:4])}[r[0]]
+    marked = {A: {frozenset([A])} for A in nts}
+    cons = {}
+    for r in rules:
+        if r[0] == "cons":
+            cons.setdefault((r[1], r[2]), []).append(r[3])
+
+    spent = [0]
+
+    def add(A, T):
+        spent[0] += 1
+        if spent[0] > budget:
+            raise OracleBudget()
+        cur = marked.setdefault(A, {frozenset([A])})
+        if any(t <= T for t in cur):
+            return False
+        for t in [t for t in cur if T < t]:
+            cur.discard(t)
+        cur.add(T)
+        return True
+
+    changed = True
+    while changed:
+        changed = False
+        for r in rules:
+            k = r[0]
+            if k == "end":
+                changed |= add(r[1], frozenset())
+            elif k == "dup":
+                for T1 in list(marked.get(r[2], ())):
+                    for T2 in list(marked.get(r[3], ())):
+                        changed |= add(r[1], T1 | T2)
+            elif k == "prod":
+                A, B, f = r[1], r[2], r[3]
+                for TB in list(marked.get(B, ())):
+                    unions = {frozenset()}
+                    dead = False
+                    for X in TB:
+                        alts = {T for Y in cons.get((f, X), []) for T in marked.get(Y, ())}
+                        if not alts:
+                            dead = True
+                            break
+                        spent[0] += len(unions) * len(alts)
+                        if spent[0] > budget:
+                            raise OracleBudget()
+                        unions = {u | a for u in unions for a in alts}
+                        mins = [u for u in unions if not any(v < u for v in unions)]
+                        unions = set(mins)
+                    if not dead:
+                        for u in unions:
+                            changed |= add(A, u)
+    return frozenset() not in marked.get(start, set())
+
+
+def eps_free_nfa(spec):
+    """(states, starts, finals, trans[(p, a, q)]) of an equivalent epsilon-free automaton; states are the spec's states."""
+    states = list(spec["states"])
+    eps = {s: {s} for s in map(vkey, states)}
+    byk = {vkey(s): s for s in states}
+    ch = True
+    while ch:
+        ch = False
+        for s, a, t in spec["trans"]:
+            if a is None:
+                for k, cl in eps.items():
+                    if vkey(s) in cl and vkey(t) not in cl:
+                        cl.add(vkey(t))
+                        ch = True
+    finals = {vkey(f) for f in spec["finals"]}
+    trans = set()
+    for k, cl in eps.items():
+        for s, a, t in spec["trans"]:
+            if a is not None and vkey(s) in cl:
+                for t2 in eps[vkey(t)]:
+                    trans.add((k, a, t2))
+    nfin = {k for k, cl in eps.items() if cl & finals}
+    return list(eps), [vkey(s) for s in spec["starts"]], nfin, sorted(trans)
+
+
+def product_rules(rules, start, spec):
+    """Reduced-form rules of the grammar generating L(rules, start) /\\ L(spec); nonterminals are tuples."""
+    states, starts, finals, trans = eps_free_nfa(spec)
+    out = [["end", ("E",), "epsilon"]]
+    for s0 in starts:
+        for f in finals:
+            out.append(["dup", ("S'",), (s0, start, f), ("E",)])
+    for r in rules:
+        k = r[0]
+        if k == "end":
+            if r[2] == "epsilon":
+                out += [["end", (p, r[1], p), "epsilon"] for p in states]
+            else:
+                out += [["end", (p, r[1], q), r[2]] for (p, a, q) in trans if a == r[2]]
+        elif k == "prod":
+            out += [["prod", (p, r[1], q), (p, r[2], q), r[3]] for p in states for q in states]
+        elif k == "cons":
+            out += [["cons", r[1], (p, r[2], q), (p, r[3], q)] for p in states for q in states]
+        else:
+            out += [["dup", (p, r[1], q), (p, r[2], m), (m, r[3], q)] for p in states for q in states for m in states]
+    return out, ("S'",)
